@@ -379,6 +379,8 @@ def own_rule(ctx, only_module: str | None = None, rule: str = "C10.own", fields=
     for f in repo.all_functions():
         if f.ident == PRIMITIVE or (only_module is not None and not f.ident.startswith(only_module + ":")):
             continue
+        if f.ident in getattr(repo, "inlined_idents", ()):
+            continue  # a new private helper: its statements were inlined into (and are judged in) its callers
         o = _full(f)
         for i, (node, desc, st, name) in enumerate(o.sinks):
             origin = o.origin.get(name)
@@ -449,6 +451,7 @@ MUTANTS += [
     M("nan patch written into the cached likelihood", "src/aspire/samplers/smc/base.py", "log_prob = update_at_indices(\n            log_prob, self.xp.isnan(log_prob), -self.xp.inf\n        )", "update_at_indices(samples.log_likelihood, self.xp.isnan(log_prob), -self.xp.inf)", "C10.own"),
 ]
 NEUTRALS = [
+    __import__("aspire_sa.rules.smcloop", fromlist=["HELPER_NEUTRAL"]).HELPER_NEUTRAL,
     M("bounded step through a private helper that writes into the caller's working copy", _T, "y, log_j_bounded = self._bounded_transform.forward(\n                x[..., self.bounded_mask]\n            )\n            x = update_at_indices(x, (slice(None), self.bounded_mask), y)\n            log_abs_det_jacobian += log_j_bounded", "x, log_j_bounded = self._put_bounded(x, self._bounded_transform.forward)\n            log_abs_det_jacobian += log_j_bounded",
       within="CompositeTransform", more=[("def forward(self, x):\n        x = copy_array(x, xp=self.xp)", "def _put_bounded(self, x, func):\n        y, log_j = func(x[..., self.bounded_mask])\n        x = update_at_indices(x, (slice(None), self.bounded_mask), y)\n        return x, log_j\n\n    def forward(self, x):\n        x = copy_array(x, xp=self.xp)")]),
     M("pool map through an order-preserving helper", "src/aspire/utils.py", "self.original_log_likelihood, map_fn=self.pool.map", "self.original_log_likelihood, map_fn=self._ordered_map",
